@@ -68,7 +68,7 @@ def gen_cartsamp(rng, seed):
     singleton axes, non-grid axes and per-`other` trajectories"""
     nz, ny, nx = rng.choice([1, 1, 2, 3]), rng.randint(1, 5), rng.randint(1, 5)
     other = rng.randint(1, 2)
-    flavour = rng.choice(['full', 'undersampled', 'permuted', 'duplicates', 'outside', 'nongrid_axis', 'per_other', 'dense'])
+    flavour = rng.choice(['full', 'undersampled', 'permuted', 'duplicates', 'outside', 'nongrid_axis', 'per_other', 'dense', 'jitter', 'jitter'])
     k2 = nz if flavour != 'undersampled' else max(1, nz - 1)
     k1 = ny if flavour not in ('undersampled',) else max(1, ny - rng.randint(0, 2))
     k0 = nx
@@ -77,7 +77,7 @@ def gen_cartsamp(rng, seed):
         vals = list(range(-(n // 2), n - n // 2))
         if flavour == 'undersampled':
             vals = sorted(rng.sample(vals, k))
-        elif flavour in ('permuted', 'per_other'):
+        elif flavour in ('permuted', 'per_other', 'jitter'):
             rng.shuffle(vals)
             vals = vals[:k]
         elif flavour == 'duplicates':
@@ -105,6 +105,13 @@ def gen_cartsamp(rng, seed):
     if flavour == 'nongrid_axis':
         # ky not on the grid: kept in acquisition order along k1
         ky['vals'] = [frac_str(Fraction(int(v)) + Fraction(1, 4)) for v in ky['vals']]
+    if flavour == 'jitter':
+        # on the grid only up to the detection tolerance (1e-3): positions stored with small errors of either sign, as a
+        # trajectory computed from gradient moments would be; they must be *rounded* to the grid, not truncated
+        for comp_ in (kz, ky, kx):
+            if len(comp_['vals']) > 1:
+                comp_['vals'] = [frac_str(Fraction(int(v)) + rng.choice([-1, 1, 1, -1, 0]) * Fraction(1, rng.choice([4096, 8192, 2048])))
+                                 for v in comp_['vals']]
     if flavour == 'dense':
         # fully dense (other,k2,k1,k0) tensors, integer valued, arbitrary positions
         shp = [other, k2, k1, k0]
